@@ -48,6 +48,20 @@ class ClassSourceWithClose(ClassSource):
         return True
 
 
+class CloseBoom(Exception):
+    pass
+
+
+class ClassSourceCloseRaises(ClassSource):
+    """Class-based iterator whose aclose() itself fails (with a scripted exception class)."""
+
+    exc = ValueError
+
+    async def aclose(self):
+        self.log.append(("closed",))
+        raise self.exc("close failed")
+
+
 def gen_source(items, log, gate=None):
     async def gen():
         log.append(("open",))
@@ -156,7 +170,8 @@ def run(tier):
             if fail_at is not None:
                 items = items[:fail_at] + [SourceBoom("source broke")]
             expected_events = events if fail_at is None else events[:fail_at]
-            kind = rng.choice(["gen", "gen", "class", "class-aclose"])
+            kind = rng.choice(["gen", "gen", "class", "class-aclose", "class-aclose-raises"])
+            close_exc = rng.choice([ValueError, KeyError, RuntimeError, CloseBoom, OSError, StopIteration, AttributeError])
             timing = rng.choice(["eager", "gated", "lagging"])
             # ---- per-event oracle: implementation execute_sync and the Spec model
             try:
@@ -188,7 +203,9 @@ def run(tier):
                         await asyncio.sleep(0)
 
                 src = (gen_source(items, log, gate) if kind == "gen" else
-                       ClassSource(items, log, gate) if kind == "class" else ClassSourceWithClose(items, log, gate))
+                       ClassSource(items, log, gate) if kind == "class" else
+                       ClassSourceWithClose(items, log, gate) if kind == "class-aclose" else
+                       type("Src", (ClassSourceCloseRaises,), {"exc": close_exc})(items, log, gate))
                 clog = []
                 res = subscribe(schema, sdoc, root_value=sub_root, variable_values=variables,
                                 subscribe_field_resolver=lambda _r, _i, **_a: src,
